@@ -81,6 +81,8 @@ def nonneg(p, depth=0, assume=None, _inprog=None):
                 continue
             if base in ("powf", "powi", "inv") and args and rec(args[0]):
                 continue
+            if base == "call" and "Option::<T>::unwrap_or" in op and "unwrap_or_else" not in op and len(args) == 2 and all(rec(x) for x in args):
+                continue      # Some(v) -> v, None -> default: non-negative when both are
             return False
     return True
 
@@ -92,8 +94,9 @@ class ClampFacts:
        magnitude of the OLD value of the variable (abs[v], or v itself when v is provably non-negative); a test of the
        signed value proves nothing for negative steps."""
 
-    def __init__(self, sx):
+    def __init__(self, sx, assume=None):
         self.sx = sx
+        self.assume = assume   # atoms vouched non-negative (a positive max_step is the domain of the step-bound properties)
         self.phi_bound = {}    # phi atom -> [(L, R, then value, else value)]
         last_if = {}
         for ev in sx.trace:
@@ -136,7 +139,7 @@ class ClampFacts:
             if m is not None and self.bounded_by(m, is_bound, depth + 1):
                 return True
         args = min_args(p)
-        if len(args) > 1 and any(self.bounded_by(a, is_bound, depth + 1) for a in args) and all(nonneg(a) for a in args):
+        if len(args) > 1 and any(self.bounded_by(a, is_bound, depth + 1) for a in args) and all(nonneg(a, assume=self.assume) for a in args):
             return True
         a = p.single_atom()
         if a and a in DEFS:
@@ -316,7 +319,7 @@ def r_hmax_clamp(rep, f):
             souts = [r for r in hk.solout_calls if r["in_main"]]
             if not souts or not isinstance(souts[0]["x"], Poly):
                 continue
-            cf = ClampFacts(sx)
+            cf = ClampFacts(sx, assume=lambda at: at == "self.max_step")
             xend = Poly.atom("xend")
             # inductive hypothesis: the step variable's value at the loop head is bounded
             head_atoms = {v.single_atom() for k, v in (hk.head or {}).items() if isinstance(v, Poly) and v.single_atom()
